@@ -280,6 +280,45 @@ def patch_modules():
 
     driver.AsyncExecutor.__call__ = observed_call
 
+    # observe the sample pipeline (C07): every Sample gets an id when it is offered to the Sampler
+    orig_add = driver.Sampler.add
+
+    def observed_add(self, *a, **k):
+        sim = SIM
+        before = self.q.qsize()
+        orig_add(self, *a, **k)
+        accepted = self.q.qsize() > before
+        sim.sid_counter += 1
+        sid = sim.sid_counter
+        if accepted:
+            sample = self.q.queue[-1]
+            sample._sid = sid
+            sim.sample_key[(sample.client_id, sample.task.name, sample.absolute_time)] = sid
+        sim.note("sample", sid=sid, accepted=accepted, worker=sim.current)
+
+    driver.Sampler.add = observed_add
+    orig_pp = driver.Driver.post_process_samples
+
+    def observed_pp(self):
+        sim = SIM
+        raw = [getattr(x, "_sid", -1) for x in self.raw_samples]
+        before = len(self.metrics_store.docs) if self.metrics_store is not None and hasattr(self.metrics_store, "docs") else 0
+        sim.fed_buffer = None
+        try:
+            return orig_pp(self)
+        finally:
+            docs = self.metrics_store.docs[before:] if self.metrics_store is not None and hasattr(self.metrics_store, "docs") else []
+            sim.note("postprocess", raw=raw, stored=sim.sids_of_docs(docs), fed=sim.fed_buffer if sim.fed_buffer is not None else [])
+
+    driver.Driver.post_process_samples = observed_pp
+    orig_calc = driver.ThroughputCalculator.calculate
+
+    def observed_calc(self, samples, *a, **k):
+        SIM.fed_buffer = [getattr(x, "_sid", -1) for x in samples]
+        return orig_calc(self, samples, *a, **k)
+
+    driver.ThroughputCalculator.calculate = observed_calc
+
 
 def make_config(scenario):
     from esrally import config
@@ -357,6 +396,11 @@ class RaceControlStub:
         self.inbox.append(msg)
         if isinstance(msg, driver.PreparationComplete):
             self.sim.post("rc", "driver", driver.StartBenchmark())
+        elif isinstance(msg, (driver.TaskFinished, driver.BenchmarkComplete)):
+            # BenchmarkCoordinator.on_task_finished / on_benchmark_complete: metrics_store.bulk_add(new_metrics)
+            before = len(self.sim.rc_store.docs)
+            self.sim.rc_store.bulk_add(msg.metrics)
+            self.sim.note("rc-added", sids=self.sim.sids_of_docs(self.sim.rc_store.docs[before:]))
 
 
 class Sim:
@@ -399,6 +443,12 @@ class Sim:
         self.driver_shell = self.create(driver.DriverActor, parent="rc", key="driver")
         self.events = 0
         self.closed = False
+        self.sid_counter = 0
+        self.sample_key = {}
+        self.fed_buffer = None
+        from esrally import metrics as _metrics
+
+        self.rc_store = _metrics.InMemoryMetricsStore(self.cfg)
 
     # ---- infrastructure used by Ref -------------------------------------------------------
     def create(self, cls, parent, requirements=None, key=None):
@@ -436,6 +486,31 @@ class Sim:
         self.wseq += 1
         self.wakeups.append({"due": self.clock + max(0.0, secs), "key": key, "payload": payload, "seq": self.wseq, "secs": secs})
         self.out.append((key, ("wakeupAfter", secs, payload)))
+
+    def sids_of_docs(self, docs):
+        """sample ids of the request records (one latency record per sample) among metric documents"""
+        out = []
+        for d in docs:
+            if d.get("name") == "latency":
+                key = (d["meta"].get("client_id"), d["task"], d["@timestamp"])
+                out.append(self.sample_key_ms.get(key, -1))
+        return out
+
+    @property
+    def sample_key_ms(self):
+        from esrally import time as rtime
+
+        if len(getattr(self, "_skm", {})) != len(self.sample_key):
+            self._skm = {(c, t, rtime.to_epoch_millis(a)): sid for (c, t, a), sid in self.sample_key.items()}
+        return self._skm
+
+    def docs_of_memento(self, memento):
+        import pickle
+        import zlib
+
+        if not memento:
+            return []
+        return pickle.loads(zlib.decompress(memento))
 
     def note(self, what, **kw):
         self.notes.append((what, kw))
@@ -510,6 +585,7 @@ class Sim:
             self.record({"ev": "dead-letter", "src": src, "dst": dst, "msg": type(msg).__name__})
             return
         self.current = dst
+        self.notes = []
         sender = ActorAddress(src)
         err = None
         for attempt in (1, 2):
@@ -521,7 +597,7 @@ class Sim:
                 err = e
         if err is not None:
             self.post(dst, src, thespian.actors.PoisonMessage(msg, details=repr(err)))
-        self.record({"ev": "deliver", "src": src, "dst": dst, "msg": type(msg).__name__, "msgobj": msg, "out": list(self.out), "poison": err is not None})
+        self.record({"ev": "deliver", "src": src, "dst": dst, "msg": type(msg).__name__, "msgobj": msg, "out": list(self.out), "poison": err is not None, "notes": list(self.notes)})
         if isinstance(msg, thespian.actors.ActorExitRequest):
             self.kill(dst)
 
@@ -555,6 +631,7 @@ class Sim:
             return
         self.current = w["key"]
         self.out = []
+        self.notes = []
         msg = thespian.actors.WakeupMessage(datetime.timedelta(seconds=w["secs"]), w["payload"])
         err = None
         for attempt in (1, 2):
@@ -564,7 +641,7 @@ class Sim:
                 break
             except Exception as e:
                 err = e
-        self.record({"ev": "wakeup", "actor": w["key"], "payload": w["payload"], "out": list(self.out), "late": self.clock - w["due"], "poison": err is not None})
+        self.record({"ev": "wakeup", "actor": w["key"], "payload": w["payload"], "out": list(self.out), "late": self.clock - w["due"], "poison": err is not None, "notes": list(self.notes)})
 
     def enabled(self):
         evs = []
